@@ -279,6 +279,38 @@ func VerifyFunc(pkg *Pkg, cs *Contracts, key string) (fx *FnCtx, err error) {
 	fx.modsEntry = fx.modTargets(fx.entry, fc.Modifies)
 	// vacuity probe: requires must be satisfiable
 	fx.emitCover(st, "requires-sat", "function precondition must be satisfiable")
+	// "<Func>$lit": the closure an option constructor returns is a VALUE that callers may share between parses and
+	// goroutines; it must not assign the variables it captured (the constructor's parameters): such a write is a store
+	// to state shared by every application of the option (C18), whatever the closure's own frame says
+	if strings.HasSuffix(key, "$lit") && len(capParams) > 0 {
+		capSet := map[*types.Var]bool{}
+		for _, v := range capParams {
+			capSet[v] = true
+		}
+		mark := func(e ast.Expr, at ast.Node) {
+			if id, ok := ast.Unparen(e).(*ast.Ident); ok {
+				if v, ok := pkg.Info.Uses[id].(*types.Var); ok && capSet[v] {
+					tags := append(append([]string(nil), fc.FrameTag...), "C18")
+					fx.emit(st, "frame[captured "+v.Name()+"]", "frame", tags, "false", "the returned closure assigns the captured variable "+v.Name()+": state shared by every application of the option value", fx.pos(at))
+				}
+			}
+		}
+		ast.Inspect(decl.Body, func(n ast.Node) bool {
+			switch x := n.(type) {
+			case *ast.AssignStmt:
+				for _, l := range x.Lhs {
+					mark(l, x)
+				}
+			case *ast.IncDecStmt:
+				mark(x.X, x)
+			case *ast.UnaryExpr:
+				if x.Op == token.AND {
+					mark(x.X, x)
+				}
+			}
+			return true
+		})
+	}
 
 	outs := fx.execBlock(st, decl.Body.List)
 	outs = append(outs, fx.drainPending()...)
